@@ -331,9 +331,22 @@ func c10Children(c *Ctx, d *Dispatcher) {
 				c.R.Check(rule, cons, c.P.Pos(h.Pos()), false, "child "+fld+" of *"+name+" is never handed to the analysis: names read there are not reported")
 				continue
 			}
+			// a visit made in a loop over a slice literal of children (`for _, ch := range []Expression{a, b, c}`)
+			// happens once per element before the loop is left normally: passing the loop header stands for it
+			var loopHeads []ssa.Instruction
+			for _, cl := range calls {
+				if hd, ok := c.literalLoopVisit(h, cl); ok {
+					loopHeads = append(loopHeads, hd)
+				}
+			}
 			isVisit := func(in ssa.Instruction) bool {
 				for _, cl := range calls {
 					if in == ssa.Instruction(cl) {
+						return true
+					}
+				}
+				for _, hd := range loopHeads {
+					if in == hd {
 						return true
 					}
 				}
@@ -873,4 +886,142 @@ func (c *Ctx) evalRoots() []*ssa.Function {
 		}
 	}
 	return roots
+}
+
+// literalLoopVisit: call sits in a loop `for i := range lit` over a slice literal built in f, takes lit[i] as its
+// argument, lies on every path through the loop body, and the loop can be left only by exhausting the literal or by
+// returning an error. Returns the loop header's branch: every path through it visits all elements or fails.
+func (c *Ctx) literalLoopVisit(f *ssa.Function, call *ssa.Call) (ssa.Instruction, bool) {
+	// the argument: *(&lit[I])
+	var idx ssa.Value
+	var arr *ssa.Alloc
+	for _, a := range call.Call.Args {
+		for {
+			if ci, isCI := a.(*ssa.ChangeInterface); isCI {
+				a = ci.X
+				continue
+			}
+			if ct, isCT := a.(*ssa.ChangeType); isCT {
+				a = ct.X
+				continue
+			}
+			break
+		}
+		u, ok := a.(*ssa.UnOp)
+		if !ok {
+			continue
+		}
+		ia, ok := u.X.(*ssa.IndexAddr)
+		if !ok {
+			continue
+		}
+		if al := localArrayLiteral(ia.X); al != nil {
+			arr, idx = al, ia.Index
+		}
+	}
+	if arr == nil {
+		return nil, false
+	}
+	at, ok := deref(arr.Type()).Underlying().(*types.Array)
+	if !ok {
+		return nil, false
+	}
+	n := at.Len()
+	// every element 0..n-1 stored once, at a constant index
+	seen := map[int64]int{}
+	for _, ref := range *arr.Referrers() {
+		ia2, ok := ref.(*ssa.IndexAddr)
+		if !ok || ia2.X != ssa.Value(arr) {
+			continue
+		}
+		for _, r2 := range *ia2.Referrers() {
+			if st, ok := r2.(*ssa.Store); ok && st.Addr == ssa.Value(ia2) {
+				k, isK := constIntArg(ia2.Index)
+				if !isK {
+					return nil, false
+				}
+				seen[k]++
+			}
+		}
+	}
+	for k := int64(0); k < n; k++ {
+		if seen[k] != 1 {
+			return nil, false
+		}
+	}
+	// the loop
+	for _, l := range naturalLoops(f) {
+		if !l.Body[call.Block()] {
+			continue
+		}
+		hif, ok := l.Header.Instrs[len(l.Header.Instrs)-1].(*ssa.If)
+		if !ok {
+			continue
+		}
+		bo, ok := hif.Cond.(*ssa.BinOp)
+		if !ok || bo.Op != token.LSS || bo.X != idx {
+			continue
+		}
+		// bound: the literal's length
+		bound := false
+		if k, isK := constIntArg(bo.Y); isK && k == n {
+			bound = true
+		}
+		if lc, isC := bo.Y.(*ssa.Call); isC && isBuiltinCall(lc, "len") {
+			if localArrayLiteral(lc.Call.Args[0]) == arr {
+				bound = true
+			}
+		}
+		// index: phi(-1, idx) + 1
+		inc, isInc := idx.(*ssa.BinOp)
+		if !bound || !isInc || inc.Op != token.ADD {
+			continue
+		}
+		phi, isPhi := inc.X.(*ssa.Phi)
+		one, isOne := constIntArg(inc.Y)
+		if !isPhi || !isOne || one != 1 || phi.Block() != l.Header {
+			continue
+		}
+		start := false
+		for _, e := range phi.Edges {
+			if k, isK := constIntArg(e); isK && k == -1 {
+				start = true
+			} else if e != idx {
+				start = false
+				break
+			}
+		}
+		if !start || !l.Body[l.Header.Succs[0]] {
+			continue
+		}
+		// the call lies on every path from the body entry back to the header
+		body := l.Header.Succs[0]
+		skip := pathExists(f, body.Instrs[0], func(x ssa.Instruction) bool { return x.Block() == l.Header }, func(x ssa.Instruction) bool { return x == ssa.Instruction(call) }, func(b *ssa.BasicBlock, k int) bool {
+			return l.Body[b.Succs[k]]
+		})
+		if body.Instrs[0] == ssa.Instruction(call) {
+			skip = false
+		}
+		if skip {
+			continue
+		}
+		// other exits of the loop are error returns
+		okExits := true
+		for b := range l.Body {
+			for _, sx := range b.Succs {
+				if l.Body[sx] || b == l.Header {
+					continue
+				}
+				ret, isRet := sx.Instrs[len(sx.Instrs)-1].(*ssa.Return)
+				if !isRet || !errorPropagatingReturn(ret, 0) {
+					okExits = false
+				}
+			}
+		}
+		if !okExits {
+			continue
+		}
+		return hif, true
+	}
+	return nil, false
 }
